@@ -355,9 +355,10 @@ looping through all list types: {ty:?} {base:?}"
                 // This is a valid value only if the type is Int, ignoring nullability.
                 !self.is_list() && self.base_type() == "Int"
             }
-            FieldValue::Float64(_) => {
+            FieldValue::Float64(x) => {
                 // This is a valid value only if the type is Float, ignoring nullability.
-                !self.is_list() && self.base_type() == "Float"
+                // NaN and the infinities are not valid values of any type.
+                x.is_finite() && !self.is_list() && self.base_type() == "Float"
             }
             FieldValue::String(_) => {
                 // This is a valid value only if the type is String, ignoring nullability.
